@@ -603,7 +603,12 @@ func goRelativize(b, v string) (res relResult, rb *iri.BaseIRI) {
 
 // relCase: RelativizeIRI on the implementation, the property oracle (re-resolve with BaseIRI.Parse),
 // and the protocol line for the model.
-func (h *harness) relCase(kind, b, v string) {
+func (h *harness) relCase(kind, b, v string) { h.relCaseM(kind, b, v, true) }
+
+// relCaseM: with model=false only the property's own statement is evaluated (whatever RelativizeIRI offers
+// must resolve back to exactly the IRI with the package's own resolver); used for bases outside the domain
+// on which goResolve models BaseIRI.Parse (empty query/fragment, dot segments, upper-case scheme, userinfo).
+func (h *harness) relCaseM(kind, b, v string, model bool) {
 	if !validPct(v) {
 		h.rep.Count("rel:skipped-malformed-percent-escape")
 		return
@@ -614,6 +619,9 @@ func (h *harness) relCase(kind, b, v string) {
 		return
 	}
 	line := "pm.rel " + vh.XS(b) + " " + vh.XS(v)
+	if !model {
+		line = "pm.relo " + vh.XS(b) + " " + vh.XS(v)
+	}
 	var goR string
 	switch {
 	case res.panic != "":
@@ -635,6 +643,9 @@ func (h *harness) relCase(kind, b, v string) {
 		}
 		// RFC 3986 section 5.2 as written in Spec/RFC3986Lite.lean judges the offered reference (any base; the
 		// repository's resolver roots relative base paths, so it cannot be asked about relative bases)
+		if !model {
+			break
+		}
 		pred := ""
 		if res.rel == "" && strings.Contains(b, "#") {
 			pred = "rel-empty-ref-base-has-fragment"
@@ -646,6 +657,11 @@ func (h *harness) relCase(kind, b, v string) {
 		}
 	}
 	h.rep.Count("rel-outcome:" + strings.SplitN(goR, ":", 2)[0])
+	if !model {
+		h.rep.Eval(line, rb.IsAbs() && v != b)
+		h.rep.Count("op:" + kind)
+		return
+	}
 	h.add(kind, line, goR, rb.IsAbs() && v != b, cmpExact)
 }
 
@@ -844,6 +860,46 @@ func (h *harness) genTarget(b string) string {
 	}
 }
 
+// genBaseWide: bases outside the model domain (oracle only): empty query and/or fragment, dot segments,
+// upper-case scheme, userinfo.
+func (h *harness) genBaseWide() string {
+	b := h.genBase()
+	core := cutQF(b)
+	switch h.r.Intn(8) {
+	case 0:
+		return core + "#"
+	case 1:
+		return core + "?#"
+	case 2:
+		return core + "?"
+	case 3:
+		return core + "?" + vh.Pick(h.r, []string{"q", "query", "a=b"}) + "#"
+	case 4:
+		return core + "?#" + vh.Pick(h.r, []string{"f", "fragment"})
+	case 5:
+		return core + vh.Pick(h.r, []string{"/./x", "/../x", "/a/..", "/."}) + h.genQF()
+	case 6:
+		return strings.ToUpper(b[:1]) + b[1:]
+	default:
+		return strings.Replace(b, "://", "://u@", 1)
+	}
+}
+
+// relOracleCases: the round-trip statement itself on bases the model does not cover.
+func (h *harness) relOracleCases(n int) {
+	for i := 0; i < n; i++ {
+		b := h.genBaseWide()
+		res := cutQF(b)
+		for k := 0; k < 4; k++ {
+			v := h.genTarget(b)
+			if h.r.Chance(35) { // the base resource with another query / fragment / both / none
+				v = res + vh.Pick(h.r, []string{"", "?q", "?query", "?", "#f", "#", "?q#f", "?q#", "?#", "?#f"})
+			}
+			h.relCaseM("rel-oracle", b, v, false)
+		}
+	}
+}
+
 func (h *harness) relCases(n int) {
 	for i := 0; i < n; i++ {
 		b := h.genBase()
@@ -867,8 +923,8 @@ func (h *harness) relCases(n int) {
 func (h *harness) exhaustiveRel(maxLen int) {
 	var bases []string
 	for _, p := range []string{"", "/", "/a", "/a/", "/a/b", "/a/b/", "/ab/c"} {
-		for _, q := range []string{"", "?q"} {
-			for _, f := range []string{"", "#f"} {
+		for _, q := range []string{"", "?q", "?"} {
+			for _, f := range []string{"", "#f", "#"} {
 				bases = append(bases, "http://e"+p+q+f)
 			}
 		}
@@ -887,10 +943,17 @@ func (h *harness) exhaustiveRel(maxLen int) {
 	}
 	rec(nil)
 	for _, b := range bases {
-		h.baseCase(b)
+		inModel := !strings.HasSuffix(b, "#") && !strings.HasSuffix(b, "?") && !strings.Contains(b, "?#")
+		if inModel {
+			h.baseCase(b)
+		}
 		for _, p := range paths {
-			for _, q := range []string{"", "?q", "?x"} {
-				for _, f := range []string{"", "#f", "#g"} {
+			for _, q := range []string{"", "?q", "?x", "?"} {
+				for _, f := range []string{"", "#f", "#g", "#"} {
+					if !inModel { // base with an empty query/fragment: own-resolver oracle only, no model line
+						h.relCaseM("rel-exhaustive-oracle", b, "http://e"+p+q+f, false)
+						continue
+					}
 					h.relCase("rel-exhaustive", b, "http://e"+p+q+f)
 				}
 			}
@@ -1019,6 +1082,14 @@ func (h *harness) replayLine(l string) {
 				h.relCase("replay", string(b), string(v))
 			}
 		}
+	case "pm.relo":
+		if len(f) == 3 {
+			b, err1 := vh.UnX(f[1])
+			v, err2 := vh.UnX(f[2])
+			if err1 == nil && err2 == nil {
+				h.relCaseM("replay", string(b), string(v), false)
+			}
+		}
 	case "pm.base":
 		if len(f) == 2 {
 			if b, err := vh.UnX(f[1]); err == nil {
@@ -1068,7 +1139,7 @@ func replayLines(b []byte) []string {
 		if err := json.Unmarshal(b, &r); err == nil {
 			var ls []string
 			for _, c := range append(r.Violations, r.Disagreements...) {
-				if strings.HasPrefix(c.Op, "pm.") {
+				if strings.HasPrefix(c.Op, "pm.") && !strings.HasPrefix(c.Op, "pm.spec") {
 					ls = append(ls, c.Op)
 				}
 			}
@@ -1083,7 +1154,7 @@ func replayLines(b []byte) []string {
 func main() {
 	flag.Parse()
 	seed := vh.SeedFromEnv()
-	rep := vh.NewReport("C13", *tier, seed, "PrefixManager: histories of NewPrefixManager/AddPrefixMappings/DeletePrefixes/Clone over a pool of 10 prefixes (incl. empty and non-ASCII) and nested, duplicate, empty and non-ASCII namespaces (4% with 20-60 mappings), observed by GetPrefixMappings/CompactPrefix/ExpandPrefix directly and through UsagePrefixMapper, IRIs placed at/around the namespaces; non-trivial = at least one mutation after construction. BaseIRI: absolute bases from lower-case hierarchical schemes with ASCII reg-name hosts, no userinfo, no dot segments and no empty query or fragment in the base, URI characters and well-formed percent-escapes only (the domain on which C12 ties the net/url wrapper to RFC 3986; its known deviations - scheme case, host escaping, opaque reclassification - are outside C13), empty and non-empty paths, with IRIs equal to the base, its directory, siblings, children, other directories, other authorities/schemes, differing only in query/fragment, with ':' in the first relative segment, '//' and dot segments, truncations and delimiter mutations of the base; plus a few relative bases; non-trivial = absolute base and IRI different from it. CURIE: scopes (safe, default prefix, empty default) x tables x IRIs, parser/printers on delimiter-heavy strings; non-trivial = the IRI compacts")
+	rep := vh.NewReport("C13", *tier, seed, "PrefixManager: histories of NewPrefixManager/AddPrefixMappings/DeletePrefixes/Clone over a pool of 10 prefixes (incl. empty and non-ASCII) and nested, duplicate, empty and non-ASCII namespaces (4% with 20-60 mappings), observed by GetPrefixMappings/CompactPrefix/ExpandPrefix directly and through UsagePrefixMapper, IRIs placed at/around the namespaces; non-trivial = at least one mutation after construction. BaseIRI: absolute bases from lower-case hierarchical schemes with ASCII reg-name hosts, no userinfo, no dot segments and no empty query or fragment in the base, URI characters and well-formed percent-escapes only (the domain on which C12 ties the net/url wrapper to RFC 3986; its known deviations - scheme case, host escaping, opaque reclassification - are outside C13), empty and non-empty paths, with IRIs equal to the base, its directory, siblings, children, other directories, other authorities/schemes, differing only in query/fragment, with ':' in the first relative segment, '//' and dot segments, truncations and delimiter mutations of the base; plus a few relative bases; non-trivial = absolute base and IRI different from it. Outside that domain (bases with an empty query/fragment, dot segments, upper-case scheme, userinfo) only the property's own statement is evaluated (rel-oracle: whatever is offered must resolve back with BaseIRI.Parse), without model comparison. CURIE: scopes (safe, default prefix, empty default) x tables x IRIs, parser/printers on delimiter-heavy strings; non-trivial = the IRI compacts")
 	h := &harness{r: vh.NewRng(seed), rep: rep}
 	fs, err := vh.LoadFindings(*findings)
 	if err != nil {
@@ -1127,11 +1198,12 @@ func main() {
 		h.exhaustiveHistories(exH)
 		rep.Exhaustive = append(rep.Exhaustive, fmt.Sprintf("PrefixManager: every history of <= %d single additions/deletions over 3 prefixes x 3 nested namespaces, fully observed", exH))
 		h.exhaustiveRel(exR)
-		rep.Exhaustive = append(rep.Exhaustive, fmt.Sprintf("RelativizeIRI: 28 bases (paths '', '/', '/a', '/a/', '/a/b', '/a/b/', '/ab/c' x query x fragment) x every path of <= %d characters over {a,b,/,.,:} x 3 queries x 3 fragments", exR))
+		rep.Exhaustive = append(rep.Exhaustive, fmt.Sprintf("RelativizeIRI: 63 bases (paths '', '/', '/a', '/a/', '/a/b', '/a/b/', '/ab/c' x query {none,?q,?} x fragment {none,#f,#}; the 35 with an empty query/fragment through the own-resolver oracle only) x every path of <= %d characters over {a,b,/,.,:} x 4 queries x 4 fragments", exR))
 		for i := 0; i < nh; i++ {
 			h.historyCase("history", h.genHistory())
 		}
 		h.relCases(nr / 4)
+		h.relOracleCases(nr / 8)
 		h.curieCases(nc)
 	}
 
